@@ -114,4 +114,13 @@ zzRedCrandMont(a, mod, W, n) == zzRedMont(a, mod, W, n)
 \* ---- powers
 zzPowerMod(a, b, mod) == ModExp(a, b, mod)                        \* 0^0 = 1 (mod mod)
 zzPowerModW(a, b, mod) == ModExp(Mod(a, mod), b, mod)
+\* ---- random residues: zzRandMod  a <-R {0, ..., mod - 1},  zzRandNZMod  a <-R {1, ..., mod - 1}  (pre: mod[n-1] # 0; mod # 1)
+\* zz.h promises the range of a on success; a failure is possible only when the generator's output is of low statistical
+\* quality (for true random octets its probability is below 2^-B_PER_IMPOSSIBLE): a seeded pseudorandom tape must succeed,
+\* a constant tape may fail (and must then fail by RETURNING).  How the octets of the tape become a is not defined by the
+\* header and is not judged; uniformity is out of scope.
+zzRandModOk(ok, a, mod, nz, tape) ==
+  /\ ok \in {0, 1}
+  /\ (tape = "seeded" => ok = 1)
+  /\ (ok = 1 => Less(a, mod) /\ (nz => ~IsZero(a)))
 =============================================================================
